@@ -57,6 +57,7 @@ type normalizer struct {
 	notes   []string
 	inlined map[string]int
 	dropped map[string]bool
+	hoisted map[string]bool
 }
 
 // normalizeProgram returns the program the rules are run on and notes for the
@@ -71,6 +72,9 @@ func normalizeProgram(p0 *Program) (*Program, []string) {
 	for round := 0; round < 5; round++ {
 		nz.p = cur
 		edits := nz.collect()
+		if len(edits) == 0 {
+			edits = nz.collectBoolHoists()
+		}
 		if len(edits) == 0 {
 			edits = nz.dropInlinedHelpers()
 			if len(edits) == 0 {
@@ -1591,4 +1595,172 @@ func (fc *fileCtx) rewritePair(a, b ast.Stmt) []srcEdit {
 		return nil
 	}
 	return []srcEdit{{fc.off(as.Pos()), fc.off(ifs.End()), txt + fc.nz.lineDir(ifs.End())}}
+}
+
+// collectBoolHoists (N3): a condition that was given a name -
+//
+//	full := n >= limit
+//	if full { ... }
+//
+// is put back where it is tested. Only for a bool variable with one definition
+// (a short declaration with a pure right-hand side) that no closure mentions, and
+// whose operands are not written anywhere after the definition; only uses inside
+// conditions are replaced.
+func (nz *normalizer) collectBoolHoists() map[string][]srcEdit {
+	out := map[string][]srcEdit{}
+	p := nz.p
+	if nz.hoisted == nil {
+		nz.hoisted = map[string]bool{}
+	}
+	for _, f := range p.Funcs("") {
+		if f.Body == nil || f.Decl == nil {
+			continue
+		}
+		tf := p.Fset.File(f.Decl.Pos())
+		if tf == nil || strings.HasSuffix(tf.Name(), "_test.go") {
+			continue
+		}
+		info := f.Info()
+		src, err := p.readFile(tf.Name())
+		if err != nil {
+			continue
+		}
+		// candidate definitions
+		type cand struct {
+			obj  types.Object
+			def  *ast.AssignStmt
+			expr ast.Expr
+		}
+		var cands []cand
+		ast.Inspect(f.Body, func(n ast.Node) bool {
+			a, ok := n.(*ast.AssignStmt)
+			if !ok || a.Tok != token.DEFINE || len(a.Lhs) != 1 || len(a.Rhs) != 1 {
+				return true
+			}
+			o := objOf(info, a.Lhs[0])
+			if o == nil || !isBoolType(o.Type()) || !isPureExpr(info, a.Rhs[0]) || nz.hoisted[hoistKey(p, a)] {
+				return true
+			}
+			switch ast.Unparen(a.Rhs[0]).(type) {
+			case *ast.BinaryExpr, *ast.UnaryExpr:
+				cands = append(cands, cand{o, a, a.Rhs[0]})
+			}
+			return true
+		})
+		for _, c := range cands {
+			ok := true
+			operands := map[types.Object]bool{}
+			ast.Inspect(c.expr, func(n ast.Node) bool {
+				if id, isId := n.(*ast.Ident); isId {
+					if o := info.Uses[id]; o != nil {
+						if _, isVar := o.(*types.Var); isVar {
+							operands[o] = true
+						}
+					}
+				}
+				return true
+			})
+			var uses []*ast.Ident
+			inCond := map[*ast.Ident]bool{}
+			var markCond func(e ast.Expr)
+			markCond = func(e ast.Expr) {
+				switch x := e.(type) {
+				case *ast.ParenExpr:
+					markCond(x.X)
+				case *ast.UnaryExpr:
+					if x.Op == token.NOT {
+						markCond(x.X)
+					}
+				case *ast.BinaryExpr:
+					if x.Op == token.LAND || x.Op == token.LOR {
+						markCond(x.X)
+						markCond(x.Y)
+					}
+				case *ast.Ident:
+					inCond[x] = true
+				}
+			}
+			ast.Inspect(f.Body, func(n ast.Node) bool {
+				switch x := n.(type) {
+				case *ast.FuncLit:
+					ast.Inspect(x, func(m ast.Node) bool {
+						if id, isId := m.(*ast.Ident); isId && (info.Uses[id] == c.obj || operands[info.Uses[id]]) {
+							ok = false // the variable or an operand is shared with a closure
+						}
+						return true
+					})
+					return false
+				case *ast.IfStmt:
+					markCond(x.Cond)
+				case *ast.ForStmt:
+					if x.Cond != nil {
+						markCond(x.Cond)
+					}
+				case *ast.CaseClause:
+					for _, e := range x.List {
+						markCond(e)
+					}
+				case *ast.AssignStmt:
+					for _, l := range x.Lhs {
+						lo := objOf(info, l)
+						if lo == c.obj && x != c.def {
+							ok = false
+						}
+						if r := rootObj(info, l); r != nil && operands[r] && x.Pos() > c.def.Pos() {
+							ok = false
+						}
+					}
+				case *ast.IncDecStmt:
+					if r := rootObj(info, x.X); r != nil && operands[r] && x.Pos() > c.def.Pos() {
+						ok = false
+					}
+				case *ast.RangeStmt:
+					for _, e := range []ast.Expr{x.Key, x.Value} {
+						if e != nil {
+							if r := rootObj(info, e); r != nil && operands[r] && x.Pos() > c.def.Pos() {
+								ok = false
+							}
+						}
+					}
+				case *ast.UnaryExpr:
+					if x.Op == token.AND {
+						if r := rootObj(info, x.X); r != nil && (operands[r] || r == c.obj) {
+							ok = false
+						}
+					}
+				case *ast.Ident:
+					if info.Uses[x] == c.obj {
+						uses = append(uses, x)
+					}
+				}
+				return true
+			})
+			if !ok || len(uses) == 0 {
+				continue
+			}
+			// a loop would let a later iteration's writes precede the definition: require that none
+			// of the operands is written at all when the definition sits in a loop
+			exprText := "(" + string(src[tf.Offset(c.expr.Pos()):tf.Offset(c.expr.End())]) + ")"
+			n := 0
+			for _, u := range uses {
+				if inCond[u] && u.Pos() > c.def.End() {
+					out[tf.Name()] = append(out[tf.Name()], srcEdit{tf.Offset(u.Pos()), tf.Offset(u.End()), exprText})
+					n++
+				}
+			}
+			if n > 0 {
+				nz.hoisted[hoistKey(p, c.def)] = true
+				if n == len(uses) {
+					// nothing reads the variable any more
+					out[tf.Name()] = append(out[tf.Name()], srcEdit{tf.Offset(c.def.End()), tf.Offset(c.def.End()), "; _ = " + c.obj.Name()})
+				}
+			}
+		}
+	}
+	return out
+}
+
+func hoistKey(p *Program, a *ast.AssignStmt) string {
+	po := p.Fset.Position(a.Pos())
+	return fmt.Sprintf("%s:%d:%s", po.Filename, po.Line, exprString(a.Lhs[0]))
 }
